@@ -7,7 +7,7 @@ use std::collections::{BTreeMap, BTreeSet};
 
 use serde_json::{json, Map, Value};
 
-use crate::desc::{Op, PatchDesc, RunDesc, SettingsDesc, Variant};
+use crate::desc::{ConversionDesc, Op, PatchDesc, ReplaceDesc, RunDesc, SettingsDesc, Variant};
 use crate::model::{self, Defs};
 use crate::prng::Rng;
 
@@ -1040,6 +1040,32 @@ fn gen_settings(rng: &mut Rng, sw: &Swarm, comps: &[Component]) -> SettingsDesc 
                     vec![]
                 },
             });
+        }
+    }
+    if sw.defaults == 0 && sw.cycles == 0 && rng.chance(1, 5) {
+        // replace one definition by an existing type (its uses name that type)
+        let all: Vec<&(String, Value)> = comps.iter().flat_map(|c| c.defs.iter()).collect();
+        if !all.is_empty() {
+            let (key, _) = rng.pick(&all);
+            let name = pascal(key);
+            if !s.patches.iter().any(|p| p.name == name) {
+                s.replaces.push(ReplaceDesc { name, with: "::serde_json::Value".into() });
+            }
+        }
+    }
+    if sw.defaults == 0 && sw.formats && rng.chance(1, 5) {
+        // convert a schema (matched exactly as written) to a named type
+        let pool: &[(Value, &str)] = &[
+            (json!({"type": "string", "format": "uuid"}), "::std::string::String"),
+            (json!({"type": "number", "format": "double"}), "f32"),
+            (json!({"type": "string", "format": "ipv4"}), "::std::net::IpAddr"),
+            (json!({"type": "string", "format": "date"}), "::std::string::String"),
+        ];
+        for _ in 0..rng.range(1, 2) {
+            let (schema, ty) = rng.pick(pool).clone();
+            if !s.conversions.iter().any(|c| c.schema == schema) {
+                s.conversions.push(ConversionDesc { schema, type_name: ty.to_string() });
+            }
         }
     }
     s
